@@ -186,6 +186,12 @@ static void probe(void *vs)
         if (present ? !is_str(g, VALS[s->val[k]]) : (g != NULL)) FAIL(site("get"), "model:return", sh, "get(%s) wrong", kt);
         spif_bool_t h = SPIF_MAP_HAS_KEY(m, K);
         if ((h ? 1 : 0) != present) FAIL(site("has_key"), "model:return", sh, "has_key(%s)=%d", kt, (int) h);
+        /* the key handed over inside a pair that carries some other value (a pair from an earlier get_pairs, say): a dictionary is keyed by the key */
+        { spif_obj_t V9 = S_("9"); spif_obj_t P = SPIF_OBJ(spif_objpair_new_from_both(K, V9)); SPIF_OBJ_DEL(V9);
+          spif_obj_t g2 = SPIF_MAP_GET(m, P); spif_bool_t h2 = SPIF_MAP_HAS_KEY(m, P);
+          if (g2 != g) FAIL(site("get"), "model:return", sh, "get(pair(%s, other value)) %s, get(%s) %s", kt, g2 ? "returns an object" : "returns NULL", kt, g ? "returns the stored value" : "returns NULL");
+          if ((h2 ? 1 : 0) != present) FAIL(site("has_key"), "model:return", sh, "has_key(pair(%s, other value))=%d", kt, (int) h2);
+          SPIF_OBJ_DEL(P); }
         SPIF_OBJ_DEL(K);
     }
     for (int v = 0; v < 3; v++) {
